@@ -171,7 +171,25 @@ def summarize(o):
     return {"kind": "qids", "mounts": len(o["shape"]), "ops": len(o["ops"])}
 
 
+def apply_replay(ctx):
+    """--replay FILE: the generators are deterministic in (seed, tier), so re-running the harness with the recorded
+    seed and tier reproduces the recorded observation (the replay file also holds it verbatim)."""
+    if not ctx.replay:
+        return
+    import json
+    try:
+        r = json.load(open(ctx.replay))
+    except (OSError, ValueError) as ex:
+        ctx.note("cannot read replay file: %r" % ex)
+        return
+    ctx.seed = int(r.get("seed", ctx.seed))
+    if r.get("tier") == "thorough":
+        ctx.tier, ctx.thorough = "thorough", True
+    ctx.note("replaying seed=%d tier=%s (%s)" % (ctx.seed, ctx.tier, r.get("key")))
+
+
 def run(ctx):
+    apply_replay(ctx)
     obs = []
     tests = (("fsimpl/localfs", "^TestVerifC19Local$", ["vh_fs_common_test.go", "c19_local_test.go"]),
              ("fsimpl/composefs", "^TestVerifC19Compose$", ["vh_fs_common_test.go", "c19_compose_test.go"]))
